@@ -43,7 +43,8 @@ func (c09) Mandatory(tier string) []string {
 	return []string{"kind:string", "kind:int-negative", "kind:int-zero", "kind:uint>=2^63", "kind:bool-true", "kind:bool-false", "tag:control-name", "tag:skip", "tag:multiline",
 		"tag:required-present", "tag:required-empty-written", "required-missing-rejected", "list:default-delim", "list:default-delim-odd-interior-element", "list:comma", "list:comma-space", "list:newline", "list:empty-omitted",
 		"list:required-empty", "list:ints", "list:versions", "list:archs", "nested:version", "nested:dependency", "nested:arch", "nested:checksums", "nested:variable-reused-for-the-next-paragraph", "ptr:nil", "ptr:non-nil",
-		"pass:unknown-kept", "pass:overwritten", "pass:cleared", "pass:newly-set", "pass:documents", "pass:marshal-twice", "pass:clear-marshal-set-marshal", "pass:late-embedded-cleared", "pass:all-omittable-struct", "setupdate", "types:same-name-different-layout"}
+		"pass:unknown-kept", "pass:overwritten", "pass:cleared", "pass:newly-set", "pass:documents", "pass:marshal-twice", "pass:clear-marshal-set-marshal", "pass:late-embedded-cleared", "pass:all-omittable-struct", "setupdate", "types:same-name-different-layout",
+		"api:ConvertToParagraph+UnpackFromParagraph", "pass:ConvertToParagraph", "required:in-a-slice-of-paragraphs", "writer:breaks-down-part-way", "pass:two-paragraphs-to-a-writer-that-breaks-down", "reuse:empty-number-fields"}
 }
 
 // ---- probe types ----
@@ -214,7 +215,76 @@ func c09Round(c *core.C, src, dst interface{}) (string, bool) {
 		c.Failf("Unmarshal of Marshal's own output failed: %v\nvalue: %+v\nwritten: %q", err, src, buf.String())
 		return buf.String(), false
 	}
+	// the same round trip through the paragraph API: ConvertToParagraph gives a well-formed paragraph (every
+	// listed field has a value and nothing else has), and UnpackFromParagraph of it gives what Unmarshal gave
+	if rt := reflect.TypeOf(dst); rt.Kind() == reflect.Ptr && rt.Elem().Kind() == reflect.Struct {
+		para, err := control.ConvertToParagraph(src)
+		if err != nil || para == nil {
+			c.Failf("ConvertToParagraph(%+v) failed: %v", src, err)
+			return buf.String(), false
+		}
+		seen := map[string]bool{}
+		for _, k := range para.Order {
+			if _, ok := para.Values[k]; !ok || seen[k] {
+				c.Failf("ConvertToParagraph(%+v): field %q is listed twice or has no value (Order %q)", src, k, para.Order)
+			}
+			seen[k] = true
+		}
+		if len(para.Values) != len(seen) {
+			c.Failf("ConvertToParagraph(%+v): %d values for the %d fields listed in Order %q", src, len(para.Values), len(seen), para.Order)
+		}
+		// (through its text: the statement is about the marshalled TEXT; what the paragraph holds in memory for
+		// a multi-line field is the writer's business)
+		var pbuf bytes.Buffer
+		if err := para.WriteTo(&pbuf); err != nil {
+			c.Failf("WriteTo of ConvertToParagraph's result failed: %v", err)
+			return buf.String(), false
+		}
+		pr, err := control.NewParagraphReader(strings.NewReader(pbuf.String()), nil)
+		var back *control.Paragraph
+		if err == nil {
+			back, err = pr.Next()
+		}
+		if err != nil || back == nil {
+			c.Failf("the text of ConvertToParagraph's result does not read back: %v\ntext: %q", err, pbuf.String())
+			return buf.String(), false
+		}
+		dst2 := reflect.New(rt.Elem())
+		if err := control.UnpackFromParagraph(*back, dst2.Interface()); err != nil {
+			c.Failf("UnpackFromParagraph of ConvertToParagraph's own result (written and read back) failed: %v\nvalue: %+v", err, src)
+		} else {
+			a, b := reflect.New(rt.Elem()), reflect.New(rt.Elem())
+			a.Elem().Set(reflect.ValueOf(dst).Elem())
+			b.Elem().Set(dst2.Elem())
+			stripPara(a.Elem())
+			stripPara(b.Elem())
+			normVal(a.Elem())
+			normVal(b.Elem())
+			if !eqNorm(a.Interface(), b.Interface()) {
+				c.Failf("ConvertToParagraph + UnpackFromParagraph gives %+v, Marshal + Unmarshal gives %+v\nvalue: %+v", dst2.Elem().Interface(), reflect.ValueOf(dst).Elem().Interface(), src)
+			}
+		}
+		c.Cover("api:ConvertToParagraph+UnpackFromParagraph")
+	}
+	// a writer that breaks down part-way: nil from Marshal means the writer got the whole text
+	for _, left := range []int{0, buf.Len() / 2, buf.Len() - 1} {
+		if left < 0 {
+			continue
+		}
+		w := &breakingWriter{left: left}
+		if err := control.Marshal(w, src); err == nil && !bytes.Equal(w.got, buf.Bytes()) {
+			c.Failf("Marshal returned nil although the writer failed after accepting %d bytes: it holds %q, the text is %q", len(w.got), w.got, buf.Bytes())
+		}
+	}
+	c.Cover("writer:breaks-down-part-way")
 	return buf.String(), true
+}
+
+// stripPara empties an embedded control.Paragraph (two routes to a value need not fill it alike).
+func stripPara(v reflect.Value) {
+	if f := v.FieldByName("Paragraph"); f.IsValid() && f.Type() == reflect.TypeOf(control.Paragraph{}) && f.CanSet() {
+		f.Set(reflect.Zero(f.Type()))
+	}
 }
 
 func hasField(text, name string) bool {
@@ -234,6 +304,17 @@ func (p c09) scalars(c *core.C, v prScalars) {
 	normVal(reflect.ValueOf(&ng).Elem())
 	if !eqNorm(nw, ng) {
 		c.Failf("round trip changed the value:\n in:  %+v\n out: %+v\n written: %q", want, got, text)
+	}
+	// the next paragraph decoded into the same variable: numbers present but empty there must not keep the old ones
+	if v.I != 0 || v.U != 0 {
+		next := "Req: again\nI:\nU:\n"
+		var fresh prScalars
+		errF := control.Unmarshal(&fresh, strings.NewReader(next))
+		errR := control.Unmarshal(&got, strings.NewReader(next))
+		if (errF == nil) != (errR == nil) || (errF == nil && (got.I != fresh.I || got.U != fresh.U || got.Req != fresh.Req)) {
+			c.Failf("decoding %q into a variable that held I=%d U=%d gives I=%d U=%d (err %v); into a fresh variable I=%d U=%d (err %v)", next, v.I, v.U, got.I, got.U, errR, fresh.I, fresh.U, errF)
+		}
+		c.Cover("reuse:empty-number-fields")
 	}
 	c.Cover("kind:string")
 	switch {
@@ -422,6 +503,18 @@ func (p c09) required(c *core.C, present bool, which int) {
 			c.Failf("document lacking the required field %s was accepted: %q", d.name, text)
 		}
 	}
+	// the same inside a list of paragraphs: the second of three lacks the field
+	good := d.text + d.name + ": v\n"
+	doc3 := good + "\n" + text + "\n" + good
+	into := reflect.New(reflect.SliceOf(reflect.TypeOf(d.into()).Elem()))
+	err3 := control.Unmarshal(into.Interface(), strings.NewReader(doc3))
+	if present && (err3 != nil || into.Elem().Len() != 3) {
+		c.Failf("three paragraphs with the required field %s decoded into a slice: %d elements, error %v (%q)", d.name, into.Elem().Len(), err3, doc3)
+	}
+	if !present && err3 == nil {
+		c.Failf("decoding into a slice accepted a document whose second paragraph lacks the required field %s: %q", d.name, doc3)
+	}
+	c.Cover("required:in-a-slice-of-paragraphs")
 	c.Nontrivial()
 }
 
@@ -506,6 +599,47 @@ func (p c09) pass(c *core.C, cs c09Pass) {
 		c.Failf("marshalling the same value twice gives different text (err %v):\n first:  %q\n second: %q", err, buf.String(), buf2.String())
 	}
 	c.Cover("pass:marshal-twice")
+	// the paragraph API on the same value: a well-formed paragraph (every listed field has a value, nothing else
+	// has one), whose text is what Marshal writes
+	if para, err := control.ConvertToParagraph(&s); err != nil || para == nil {
+		c.Failf("ConvertToParagraph failed on a value Marshal accepts: %v", err)
+	} else {
+		listed := map[string]bool{}
+		for _, k := range para.Order {
+			if _, has := para.Values[k]; !has || listed[k] {
+				c.Failf("ConvertToParagraph: field %q is listed twice or has no value (Order %q)", k, para.Order)
+			}
+			listed[k] = true
+		}
+		for k := range para.Values {
+			if !listed[k] {
+				c.Failf("ConvertToParagraph: the paragraph has a value for %q, which it does not list (Order %q)", k, para.Order)
+			}
+		}
+		var pb bytes.Buffer
+		if err := para.WriteTo(&pb); err != nil {
+			c.Failf("WriteTo of ConvertToParagraph's result failed: %v", err)
+		} else if pref, pok := model.RefRead(pb.String()); !pok || len(pref) != 1 {
+			c.Failf("the text of ConvertToParagraph's result is not one well-formed paragraph: %q", pb.String())
+		} else if mref, mok := model.RefRead(buf.String()); mok && len(mref) == 1 && !reflect.DeepEqual(pref[0], mref[0]) {
+			c.Failf("ConvertToParagraph's result reads as %+v, Marshal's text as %+v", pref[0], mref[0])
+		}
+		c.Cover("pass:ConvertToParagraph")
+	}
+	// two paragraphs through one Marshal call to a writer that breaks down: nil means everything arrived
+	{
+		var both bytes.Buffer
+		pair := []prPass{s, s}
+		if control.Marshal(&both, pair) == nil {
+			for _, left := range []int{buf.Len() - 1, buf.Len(), buf.Len() + 1, both.Len() - 1} {
+				w := &breakingWriter{left: left}
+				if err := control.Marshal(w, pair); err == nil && !bytes.Equal(w.got, both.Bytes()) {
+					c.Failf("Marshal of two paragraphs returned nil although the writer failed after accepting %d of %d bytes", len(w.got), both.Len())
+				}
+			}
+			c.Cover("pass:two-paragraphs-to-a-writer-that-breaks-down")
+		}
+	}
 	ref, ok := model.RefRead(buf.String())
 	if !ok || len(ref) != 1 {
 		c.Failf("Marshal output is not one well-formed paragraph: %q", buf.String())
